@@ -222,6 +222,15 @@ Section Oracles.
     exists app, r. repeat split; assumption.
   Qed.
 
+  (** the answer of the pool is a function of the committed state, the IBTP and the proof at the
+      time of the question - whatever was asked before - as long as no verdict is remembered *)
+  Theorem verdict_is_function c : d_verdict_cache c = false ->
+    forall evs n, c_run H digest rule_validate recover c n evs = c_spec H digest rule_validate recover (cn_state n) evs.
+  Proof.
+    intros Hc. induction evs as [|e t IH]; intros n; [reflexivity|].
+    destruct e as [st| |ib name pd]; simpl; rewrite ?Hc; simpl; rewrite IH; reflexivity.
+  Qed.
+
   (** no available rule, an unregistered chain, an absent proof or a hash mismatch reject *)
   Theorem rejects st ib :
     verify st ib PdAbsent = VErr 1 /\
@@ -378,6 +387,22 @@ Example pipeline_fixed_example :
   map snd (q_run c_H c_digest c_rule c_recover {| d_verify_at_enqueue := true |} q0 [QEnqueue qb1; QExecute; QEnqueue qb2; QExecute])
   = [[]; [VErr 5]].
 Proof. split; reflexivity. Qed.
+
+(** a verdict cache keyed by (rule, IBTP name, proof hash): expected refutation.  The SimFabric rule
+    (3) is bound; proof 2007001 endorses content 7; IBTP 7000 (content 7) and IBTP 8000 (content 8)
+    share the name 55 (same from-to-index); the second one rides on the verdict of the first *)
+Definition ib_c (i : N) : ibtp :=
+  {| ib_id := i; ib_from_bxh := 1356; ib_from_chain := 50; ib_to_bxh := 1356; ib_to_chain := 51; ib_is_req := true; ib_proofhash := 2007001 |}.
+Definition cache_hist := [CCommit (st_rule 3); CCheck (ib_c 7000) 55 (PdBytes 2007001 None); CCheck (ib_c 8000) 55 (PdBytes 2007001 None);
+                          CRestart; CCheck (ib_c 8000) 55 (PdBytes 2007001 None)].
+
+Theorem verdict_cache_refuted :
+  c_run c_H c_digest c_rule c_recover {| d_verdict_cache := true |} {| cn_state := st_rule 0; cn_cache := [] |} cache_hist
+  = [None; Some VOk; Some VOk; None; Some (VErr 5)] /\
+  c_verify (st_rule 3) (ib_c 8000) (PdBytes 2007001 None) = VErr 5 /\
+  c_run c_H c_digest c_rule c_recover {| d_verdict_cache := false |} {| cn_state := st_rule 0; cn_cache := [] |} cache_hist
+  = [None; Some VOk; Some (VErr 5); None; Some (VErr 5)].
+Proof. repeat split; reflexivity. Qed.
 
 (** the multi-signature theorem with the digest made concrete: the packed encoding of the IBTP's
     fields and the status, under any hash *)
